@@ -18,6 +18,10 @@ Two sub-workloads, one per run (``scn["spec"]["mode"]``):
            fragmented greeting and sends <= 12 execute/complete/is_complete/kernel_info/comm_info/history
            requests on shell (a few on control), heartbeat pings, with faults: fragmentation with delays,
            single-bit corruption, frame replacement, wrong key, truncated connection (EOF mid-message).
+           In a share of the runs a second front end is attached to the same session (its own shell
+           connection, session id and identities; from the start or only when it sends its first request):
+           shell requests are spread over the two front ends, so that a request of one is delivered while
+           a request of the other is being handled (e.g. while its cell sleeps).
            Oracle (from the property text): see ``_oracle_proto``.
 """
 
@@ -46,7 +50,10 @@ RULE = (
     "(thorough: also every pair) for streams <= 24 bytes, else <= 8 seeded cuts biased into length prefixes or "
     "byte-by-byte; EOF at every prefix (small) or at seeded prefixes; each (stream, cuts, eof) is one case "
     "(counted in sums.cases). proto: one kernel session, <= 12 requests with generated cells, fragmented, "
-    "with <= 3 faults (bit flip / frame replacement / wrong key / truncated connection); distinct = scenario "
+    "with <= 3 faults (bit flip / frame replacement / wrong key / truncated connection); in 30% of the proto runs "
+    "the shell requests are spread over two front ends (two shell connections to the one session, the second "
+    "attached at the start or at its first request), often with a slow cell on one and a non-execute request "
+    "on the other before the cell has finished; distinct = scenario "
     "digest; non-trivial = frame: a cut strictly inside a frame and >= 1 delivery; proto: >= 1 valid request "
     "answered and >= 1 fault or fragmented request"
 )
@@ -55,7 +62,18 @@ ASSUMPTIONS = [
     "the kernel, no reordering); corruption faults are applied by the client before sending",
     "StreamWriter.drain() of the kernel's writers returns immediately, after one loop pass, or after 1 ms "
     "(per run); kernel writes are never fragmented towards the client (the client decoder is the harness' own)",
-    "one shell connection at a time; the client reconnects only after the kernel closed the truncated one",
+    "one shell connection at a time per front end; a front end reconnects only after the kernel closed the "
+    "truncated one; at most two front ends, and the second has a shell connection only (iopub/hb/control/stdin "
+    "are the first one's: a second iopub subscriber is not generated)",
+    "two front ends: the property does not define an order between cells that two front ends run at the same "
+    "time in the one interpreter context, so the driver sends an execute_request of the other front end only "
+    "after everything sent before has had time to finish (1 s + the sleeps sent so far); all other request "
+    "types overlap freely with a running cell of the other front end. The requester of a request is the peer of "
+    "the connection it arrived on: a message on another shell connection is not its reply. For a request "
+    "handled while one of the other front end was in progress the busy/idle bracket is judged on the status "
+    "broadcasts that carry this request's header as parent (positions alone cannot tell whose they are); the "
+    "reply bound is extended by the sleeps of the other front end's earlier cells (serving front ends one "
+    "after the other is allowed)",
     "a request is 'valid' when it was signed with the session key and delivered completely on a connection the "
     "kernel had not closed; identities are outside the signature (Jupyter protocol), so they are never corrupted",
     "status broadcasts are judged by position relative to the reply (last status before = busy, first after = "
@@ -84,6 +102,8 @@ REACH_PROBES = [
     "error_cell", "stdout_cell", "result_cell", "witness_cell", "session_killed_by_tamper", "port_busy",
     "request_cut_inside_length_prefix", "heartbeat_long", "stdout_after_idle", "stdout_misparented",
     "control_request", "name_error_cell", "print_then_fail_pipelined",
+    "second_front_end", "front_end_attached_late", "concurrent_front_ends", "reply_while_other_cell_runs",
+    "cell_from_other_front_end",
 ]
 SHRINK_LISTS = [["ops"], ["spec", "msgs"], ["spec", "msgs", "*", "frames"], ["spec", "cuts", "pos"],
                 ["spec", "eof", "pos"], ["ops", "*", "cell"], ["ops", "*", "cuts"], ["ops", "*", "ids"]]
@@ -372,6 +392,8 @@ REQ_TYPES = ["execute_request"] * 8 + ["complete_request", "is_complete_request"
                                         "comm_info_request", "history_request"]
 SIGNED = ["header", "parent", "metadata", "content"]
 KEYS = ["0123456789abcdef", "a", "c19-secret-key-with-some-length-0000000000000000", "kéy-ü"]
+FE2_SHARE = 0.3  # share of the protocol runs with a second front end
+FE_SESSIONS = ["c19-client", "c19-fe-two"]  # same length: the wire layout does not depend on the front end
 
 
 def _gen_ids(rng: random.Random) -> list[str]:
@@ -543,7 +565,58 @@ def _gen_proto_mode(rng: random.Random, tier: str) -> dict:
     spec = {"mode": "proto", "key": key, "steer": steer, "busy_ports": busy,
             "drain": rng.choice(["none", "none", "none", "yield", "slow"]), "hello": hello,
             "subscribe": rng.random() < 0.7}
+    # overlay, drawn last so that the base scenario of a seed is what it was before the overlay existed
+    if rng.random() < FE2_SHARE:
+        spec["fe2"] = _add_second_front_end(rng, ops, key)
     return {"cfg": cfg, "spec": spec, "ops": ops}
+
+
+def _add_second_front_end(rng: random.Random, ops: list, key: str) -> dict:
+    """A second front end attached to the same kernel session (notebook + ``jupyter console --existing``).
+
+    It has its own shell connection (which the kernel serves in its own task), its own session id and
+    identities.  Every shell request / truncated connection is attributed to one of the two front ends
+    (``op["fe"]``); requests of the two front ends interleave with the generated timing, so a request of one
+    front end is delivered while a request of the other is being handled (same pass, a few passes later, or
+    while its cell sleeps).  A motif makes the last case frequent: a cell that takes a while on one front end
+    and any non-execute request on the other front end before the cell has finished.
+    """
+    prev = 0
+    for op in ops:
+        if op["kind"] not in ("req", "trunc") or op.get("ch") != "shell":
+            continue
+        if op.get("motif_tail"):
+            op["fe"] = prev  # queued behind the printing cell on the same connection
+        else:
+            op["fe"] = 1 if rng.random() < 0.45 else 0
+        prev = op["fe"]
+    if rng.random() < 0.6:
+        pos = rng.randint(0, len(ops))
+        if pos < len(ops) and ops[pos].get("motif_tail"):
+            pos += 1  # do not separate the print-then-fail pair
+        a = rng.randint(0, 1)
+        dur = rng.choice([0.3, 1.0, 1.0])
+        tag = 2000 + pos
+        tail = rng.choice([["expr", _gen_int_expr(rng, 1)], ["expr", ["i", 42]], ["print", ["s", f"f{pos}"]],
+                           ["wit", f"w{tag}"], ["raise", rng.choice(ERRS), f"slow {pos}"]])
+        first = _gen_req(rng, tag, key, False)
+        first.pop("content", None)
+        first.update({"mt": "execute_request", "sep": "\n", "fe": a, "cell": [["sleep", dur], tail]})
+        second = _gen_req(rng, tag + 1, key, False)
+        if second["mt"] == "execute_request":
+            second["mt"] = rng.choice(REQ_TYPES[8:])
+            second.pop("cell", None)
+            second.pop("sep", None)
+            second["content"] = _gen_content(rng, second["mt"])
+        second.pop("passes", None)
+        second["dt"] = 0.25 * rng.randint(0, 1 if dur < 1.0 else 3)
+        second["fe"] = 1 - a
+        ops[pos:pos] = [first, second]
+        _place_cuts(rng, first, key, pos)
+        _place_cuts(rng, second, key, pos + 1)
+    wire = N.client_hello(b"DEALER", b"")
+    return {"cuts": _gen_cuts(rng, wire) if rng.random() < 0.5 else [], "delays": _gen_delays(rng),
+            "lazy": rng.random() < 0.4}
 
 
 def gen(rng: random.Random, tier: str) -> dict:
@@ -569,7 +642,8 @@ SOCK_TYPE = {"iopub": b"SUB", "hb": b"REQ", "control": b"DEALER", "stdin": b"DEA
 
 
 def request_header(op: dict, idx: int) -> dict:
-    return {"msg_id": f"c19-{idx}", "session": "c19-client", "username": "sim", "date": "2024-05-14T17:00:00Z",
+    return {"msg_id": f"c19-{idx}", "session": FE_SESSIONS[1 if op.get("fe") else 0], "username": "sim",
+            "date": "2024-05-14T17:00:00Z",
             "msg_type": op["mt"], "version": "5.3"}
 
 
@@ -1029,15 +1103,26 @@ async def _proto_driver(w: JupyterWorld, scn: dict, rec: dict) -> None:
             lg.setLevel(logging.DEBUG)
 
     conns: dict[str, N.Conn] = {}
+    fe2 = spec.get("fe2") or None
+    shell_conn: dict[int, N.Conn] = {}  # front end -> its current shell connection
 
-    async def connect(chan: str, frag: dict | None) -> N.Conn:
+    async def connect(chan: str, frag: dict | None, fe: int = 0) -> N.Conn:
         conn = net.connect(ports[PORT_OF[chan]], chan)
         hello = N.client_hello(SOCK_TYPE[chan], None if chan == "iopub" else b"")
         cuts, delays = _frag_args((frag or {}).get("cuts"), (frag or {}).get("delays"), hello)
         await conn.send(hello, cuts, delays)
-        conns[chan] = conn
+        if fe == 0:
+            conns[chan] = conn
+        if chan == "shell":
+            shell_conn[fe] = conn
+        rec["fe_of"][conn.cid] = fe
         rec["conns"].append(conn)
         return conn
+
+    def check_hello(conn: N.Conn) -> None:
+        evs = conn.decoder.events
+        if conn.decoder.error or not evs or evs[0]["k"] != "greeting":
+            rec["handshake_bad"].append(conn.name)
 
     for chan in CHANNELS:
         try:
@@ -1049,13 +1134,24 @@ async def _proto_driver(w: JupyterWorld, scn: dict, rec: dict) -> None:
             return
         if chan == "iopub" and spec.get("subscribe", True):
             await conns["iopub"].send(N.enc_message([b"\x01"]))
+    if fe2 and not fe2.get("lazy"):
+        # the second front end is attached from the start: one more connection to the same shell port
+        try:
+            await connect("shell", fe2, 1)
+            w.probe("second_front_end")
+        except ConnectionRefusedError:
+            rec["refused"].append("shell")
+            rec["t_end"] = w.loop.vt
+            return
     await w.settle(0.5)
     for chan in CHANNELS:
-        evs = conns[chan].decoder.events
-        if conns[chan].decoder.error or not evs or evs[0]["k"] != "greeting":
-            rec["handshake_bad"].append(chan)
+        check_hello(conns[chan])
+    if 1 in shell_conn:
+        check_hello(shell_conn[1])
     rec["t_ready"] = w.loop.vt
 
+    last_exec_fe = None
+    slept = 0.0
     for idx, op in enumerate(scn["ops"]):
         await wait_op(w, op)
         kind = op["kind"]
@@ -1079,18 +1175,36 @@ async def _proto_driver(w: JupyterWorld, scn: dict, rec: dict) -> None:
                     w.fault("fragmented")
             continue
         chan = op["ch"]
-        conn = conns[chan]
-        if kind in ("req", "trunc") and chan == "shell" and not conn.usable:
+        fe = 1 if (fe2 and chan == "shell" and op.get("fe")) else 0
+        if fe2 and chan == "shell" and op["mt"] == "execute_request":
+            # cells of different front ends are not run concurrently (ASSUMPTIONS): before a cell of the
+            # other front end is sent, everything sent so far has had the time to be handled
+            if last_exec_fe is not None and last_exec_fe != fe:
+                await w.settle(1.0 + 1.05 * slept)
+                w.probe("cell_from_other_front_end")
+            last_exec_fe = fe
+            slept += sum(st[1] for st in (op.get("cell") or []) if st[0] == "sleep")
+        conn = shell_conn.get(fe) if chan == "shell" else conns[chan]
+        if conn is None:
+            # the second front end attaches only now, possibly while a cell of the first one is running
+            try:
+                conn = await connect("shell", fe2, fe)
+                await w.settle()  # like a reconnect: what the kernel writes is judged by the decoder at the end
+                w.probe("second_front_end")
+                w.probe("front_end_attached_late")
+            except ConnectionRefusedError:
+                conn = None
+        elif kind in ("req", "trunc") and chan == "shell" and not conn.usable:
             # the previous shell connection is gone: connect again (like a restarted front end)
             await w.settle(REPLY_BOUND)
             try:
-                conn = await connect("shell", None)
+                conn = await connect("shell", None, fe)
                 await w.settle()
                 w.probe("reconnect_after_eof")
             except ConnectionRefusedError:
                 conn = None
         wire, info = build_request(op, key, idx)
-        entry = {"idx": idx, "op": op, "ch": chan, "header": info["header"], "ids": info["ids"],
+        entry = {"idx": idx, "op": op, "ch": chan, "fe": fe, "header": info["header"], "ids": info["ids"],
                  "tampered": op.get("fault") is not None, "trunc": kind == "trunc", "delivered": False,
                  "stamp": None, "conn": None, "len": len(wire)}
         rec["reqs"].append(entry)
@@ -1141,7 +1255,7 @@ async def _proto_driver(w: JupyterWorld, scn: dict, rec: dict) -> None:
 def _run_proto(scn: dict) -> dict:
     spec = scn["spec"]
     w = JupyterWorld(scn["cfg"], spec)
-    rec = {"reqs": [], "hb": [], "conns": [], "loggers": [], "handshake_bad": [], "refused": []}
+    rec = {"reqs": [], "hb": [], "conns": [], "loggers": [], "handshake_bad": [], "refused": [], "fe_of": {}}
 
     async def driver(world):
         try:
@@ -1161,10 +1275,12 @@ def _oracle_proto(w: JupyterWorld, scn: dict, rec: dict):
     * a request that is not valid (tampered / wrong key / truncated) is never executed (no write of the
       witness entity that a valid, answered cell does not explain) and never answered (every message on a
       shell connection is the one reply of a valid request);
-    * every valid shell request gets exactly one reply: HMAC verifies with the session key, identity frames
-      equal the request's, parent_header equals the request header, reply type matches; on iopub the last
-      status before it is busy and the first status after it is idle; it arrives within REPLY_BOUND (+ sleeps
-      of the cell + injected stalls) of the moment the request was delivered and the previous reply sent;
+    * every valid shell request gets exactly one reply, on the connection it was sent on: HMAC verifies with
+      the session key, identity frames equal the request's, parent_header equals the request header, reply
+      type matches; on iopub the last status before it is busy and the first status after it is idle (for a
+      request handled concurrently with one of the other front end: among the status broadcasts with this
+      request's header as parent); it arrives within REPLY_BOUND (+ sleeps of the cell + injected stalls) of
+      the moment the request was delivered and the previous reply sent;
     * execute_reply status / execution_count / error name, iopub execute_result / stream / error follow the
       reference semantics of the executed cells in order (cross-cell order; see ASSUMPTIONS).
     """
@@ -1228,6 +1344,16 @@ def _oracle_proto(w: JupyterWorld, scn: dict, rec: dict):
         pid = msg["parent"].get("msg_id")
         ent = by_id.get(pid)
         if ent is not None and is_valid(ent):
+            if msg["conn"] != ent["conn"]:
+                # the requester is the peer of the connection the request came in on: a message on another
+                # connection is not a reply to it, whatever its parent says
+                violations.append(_viol("C19.reply_parent", {"why": "other_connection"},
+                                        f"shell message {msg['type']} on connection {msg['conn']} (front end "
+                                        f"{rec['fe_of'].get(msg['conn'])}, identities {_short(msg['ids'])}) carries "
+                                        f"as parent the header of request #{ent['idx']} ({ent['op']['mt']}), which "
+                                        f"was sent on connection {ent['conn']} (front end {ent.get('fe', 0)})",
+                                        rel(msg["stamp"])))
+                continue
             replies.setdefault(pid, []).append(msg)
             continue
         if ent is not None:
@@ -1264,6 +1390,36 @@ def _oracle_proto(w: JupyterWorld, scn: dict, rec: dict):
             what = f"request #{owner['idx']} fault={owner['op'].get('fault')} trunc={owner['trunc']} ch={owner['ch']}"
         violations.append(_viol("C19.tampered_executed", {"fault": fault},
                                 f"{WITNESS} became {val!r}: {what}", vt - vt0))
+
+    # ---- two front ends: which requests were handled while a request of the other front end was in progress
+    inf = float("inf")
+
+    def own_statuses(e) -> list[dict]:
+        return [s for s in statuses if s["parent"] == e["header"]]
+
+    def handled_until(e) -> float:
+        """Sequence number at which the handling of a valid request was over (its idle status)."""
+        got = replies.get(e["header"]["msg_id"])
+        if not got:
+            return inf
+        seq = got[0]["stamp"][0]
+        own = [s["stamp"][0] for s in own_statuses(e)
+               if s["stamp"][0] > seq and s["content"].get("execution_state") == "idle"]
+        if own:
+            return own[0]
+        nxt = [s["stamp"][0] for s in statuses if s["stamp"][0] > seq]
+        return nxt[0] if nxt else inf
+
+    valid_shell = [e for e in shell_reqs if is_valid(e)]
+    two_fe = len({e.get("fe", 0) for e in valid_shell}) > 1
+    until = {e["idx"]: handled_until(e) for e in valid_shell} if two_fe else {}
+
+    def concurrent_with(e) -> list[dict]:
+        """Valid requests of the other front end whose handling overlapped the handling of e."""
+        if not two_fe:
+            return []
+        return [o for o in valid_shell if o.get("fe", 0) != e.get("fe", 0)
+                and o["stamp"][0] < until[e["idx"]] and until[o["idx"]] > e["stamp"][0]]
 
     # ---- every valid shell request: exactly one reply, signed, addressed, correlated, bracketed, in time
     answered: list[dict] = []
@@ -1317,17 +1473,38 @@ def _oracle_proto(w: JupyterWorld, scn: dict, rec: dict):
         if rep["type"] != e["op"]["mt"].replace("_request", "_reply"):
             violations.append(_viol("C19.reply_type", {}, desc + ": wrong reply type", t_rep))
         seq = rep["stamp"][0]
-        before = [s for s in statuses if s["stamp"][0] < seq]
-        after_s = [s for s in statuses if s["stamp"][0] > seq]
+        others = concurrent_with(e)
+        if others:
+            # handled while a request of the other front end was being handled: the broadcasts of the two
+            # requests interleave, so the bracket of this request is made of the status broadcasts that carry
+            # its header as parent (Jupyter: that is how a front end tells whose busy/idle it is)
+            w.probe("concurrent_front_ends")
+            if any(o["stamp"][0] < seq < until[o["idx"]] and o["op"]["mt"] == "execute_request"
+                   and e["op"]["mt"] != "execute_request" for o in others):
+                w.probe("reply_while_other_cell_runs")
+            own = own_statuses(e)
+            before = [s for s in own if s["stamp"][0] < seq]
+            after_s = [s for s in own if s["stamp"][0] > seq]
+            whose = f" (of the status broadcasts with this request's header as parent; concurrent with " \
+                    f"#{others[0]['idx']} {others[0]['op']['mt']} of the other front end)"
+            conc = {"concurrent": True}
+        else:
+            before = [s for s in statuses if s["stamp"][0] < seq]
+            after_s = [s for s in statuses if s["stamp"][0] > seq]
+            whose, conc = "", {}
         if not before or before[-1]["content"].get("execution_state") != "busy":
-            violations.append(_viol("C19.status_bracket", {"missing": "busy", "after": after},
+            violations.append(_viol("C19.status_bracket", dict({"missing": "busy", "after": after}, **conc),
                                     desc + ": last iopub status before the reply is "
-                                    f"{before[-1]['content'] if before else None}", t_rep))
+                                    f"{before[-1]['content'] if before else None}{whose}", t_rep))
         if not after_s or after_s[0]["content"].get("execution_state") != "idle":
-            violations.append(_viol("C19.status_bracket", {"missing": "idle", "after": after},
+            violations.append(_viol("C19.status_bracket", dict({"missing": "idle", "after": after}, **conc),
                                     desc + ": first iopub status after the reply is "
-                                    f"{after_s[0]['content'] if after_s else None}", t_rep))
+                                    f"{after_s[0]['content'] if after_s else None}{whose}", t_rep))
         sleeps = sum(st[1] for st in (e["op"].get("cell") or []) if st[0] == "sleep")
+        # the property does not say that front ends are served in parallel: cells of the other front end that
+        # were sent earlier may delay this reply
+        sleeps += sum(st[1] for o in valid_shell if two_fe and o.get("fe", 0) != e.get("fe", 0)
+                      and o["stamp"][0] < seq for st in (o["op"].get("cell") or []) if st[0] == "sleep")
         start = max(e["stamp"][1], prev_reply_vt)
         if rep["stamp"][1] - start > REPLY_BOUND + sleeps * 1.01 + stall_total:
             violations.append(_viol("C19.reply_late", {},
@@ -1488,7 +1665,7 @@ def _oracle_proto(w: JupyterWorld, scn: dict, rec: dict):
     nontrivial = n_answered >= 1 and bool(w.faults)
     extra = {"requests": len(reqs), "valid_shell": n_valid, "answered": n_answered, "tampered": len(tampers),
              "iopub_msgs": len(iopub_all), "iopub_dropped": n_iopub_dropped, "proto_runs": 1,
-             "hb_pings": len(hb_sent)}
+             "hb_pings": len(hb_sent), "two_front_end_runs": 1 if two_fe else 0}
     return violations, nontrivial, extra
 
 
@@ -1532,6 +1709,8 @@ def normalize(scn: dict) -> dict | None:
     for op in scn["ops"]:
         if op["kind"] in ("req", "trunc") and op.get("mt") == "execute_request" and not op.get("cell"):
             op["cell"] = [["expr", ["none"]]]
+        if not spec.get("fe2"):
+            op.pop("fe", None)
     return scn
 
 
@@ -1591,6 +1770,21 @@ def simplify(scn: dict):
                         yield cand
         return
     # ---- proto
+    if spec.get("fe2"):
+        cand = copy.deepcopy(scn)  # one front end only
+        cand["spec"].pop("fe2")
+        for op in cand["ops"]:
+            op.pop("fe", None)
+        yield cand
+        if spec["fe2"].get("lazy") or spec["fe2"].get("cuts"):
+            cand = copy.deepcopy(scn)
+            cand["spec"]["fe2"] = {"cuts": [], "delays": [-1], "lazy": False}
+            yield cand
+        for i, op in enumerate(scn["ops"]):
+            if op.get("fe"):
+                cand = copy.deepcopy(scn)
+                cand["ops"][i]["fe"] = 0
+                yield cand
     for key, val in (("drain", "none"), ("busy_ports", []), ("key", KEYS[0])):
         if spec.get(key) != val:
             cand = copy.deepcopy(scn)
